@@ -58,6 +58,7 @@ type Report struct {
 	Harnesses    []*HarnessReport
 	Lines        []string
 	Inconclusive []string
+	Notes        []string
 	WallS        float64
 	Exit         int
 	Violations   int
@@ -514,6 +515,7 @@ func (r *Report) write(path string, P *Program) error {
 		"stdlib_functions_interpreted": stdFns,
 		"stubs_hit":                    intr,
 		"source_files_sha256_prefix":   files,
+		"notes":                        r.Notes,
 		"inconclusive":                 r.Inconclusive,
 		"known_findings_reported":      keys(r.KnownLines),
 		"exit":                         r.Exit,
